@@ -1232,7 +1232,9 @@ impl<'r> Renderer<'r> {
                 r.kw("DATABASE");
                 r.kw("MICRONS");
                 if dbu_zero && r.style.alt_decimals && r.rng.chance(1, 3) {
-                    r.tok(&format!("{}.0", val));
+                    // one fractional zero, or as many as printf("%f") / fixed-width writers emit (up to 12)
+                    let nz = if r.rng.bool() { 1 } else { 1 + r.rng.usize(12) };
+                    r.tok(&format!("{}.{}", val, "0".repeat(nz)));
                 } else {
                     r.tok(&format!("{}", val));
                 }
